@@ -121,7 +121,7 @@ MetaClauses(f, c, evs) ==
          IN Fail(Is(evs, in, "1000", c.name), f, "NAME")
             \cup Fail(Is(evs, in, "1001", RpmVersion(c)), f, "VERSION")
             \cup Fail(Is(evs, in, "1002", RpmRelease(c)), f, "RELEASE")
-            \cup Fail(IF c.epoch = "" THEN ~HasMeta(evs, in, "1003") ELSE Is(evs, in, "1003", NatToStr(ToNat(c.epoch))), f, "EPOCH")
+            \cup Fail(IF c.epoch = "" THEN ~HasMeta(evs, in, "1003") ELSE Is(evs, in, "1003", NormNum(c.epoch)), f, "EPOCH")
             \cup Fail(Is(evs, in, "1004", IF c.rpm.summary # "" THEN c.rpm.summary ELSE Lines(desc)[1]), f, "SUMMARY")
             \cup Fail(Is(evs, in, "1005", desc), f, "DESCRIPTION")
             \cup Fail(IffSet(evs, in, "1007", c.rpm.buildhost), f, "BUILDHOST")
